@@ -177,7 +177,14 @@ class Recorder:
             from rsocket.frame import InvalidFrame
             if isinstance(frame, InvalidFrame):
                 return await orig_handle(frame, table)
-            d = FR.describe(frame)
+            try:
+                d = FR.describe(frame)
+                if any(v is None for k, v in d.items() if k != 'resume'):
+                    raise ValueError('half-parsed frame')
+            except Exception:
+                # a frame object that is only half parsed was handed to dispatch
+                rec.broken_frames = getattr(rec, 'broken_frames', 0) + 1
+                return await orig_handle(frame, table)
             utf8 = True
             if d['t'] == 'Error':
                 try:
